@@ -141,7 +141,7 @@ func (s *Syncer[H]) Start(ctx context.Context) error {
 		return fmt.Errorf("error getting latest head during Start: %w", err)
 	}
 	// start syncLoop only if Start is errorless
-	go s.syncLoop()
+	go s.syncLoop(s.ctx)
 	select {
 	case <-s.started:
 	default:
@@ -220,12 +220,14 @@ func (s *Syncer[H]) wantSync() {
 }
 
 // syncLoop controls syncing process.
-func (s *Syncer[H]) syncLoop() {
+func (s *Syncer[H]) syncLoop(ctx context.Context) {
+	// NOTE: works on the context it was started with: Stop does not wait for the loop to exit,
+	// and a following Start replaces s.ctx
 	for {
 		select {
 		case <-s.triggerSync:
-			s.sync(s.ctx)
-		case <-s.ctx.Done():
+			s.sync(ctx)
+		case <-ctx.Done():
 			return
 		}
 	}
